@@ -1,7 +1,7 @@
 /- C02/C03 driver: the atoms the model of atoms.c (Model/ReAtoms.lean, with the heuristic quality function of atoms.c)
    extracts from a non-literal hex / regex AST.
-   case line:  <id> re=<ast> fl=<subset of a w i>   ->  <id> A <hex bytes>,<hex bytes>,...   (sorted, no duplicates; `-` = the
-   zero-length atom) -/
+   case line:  <id> re=<ast> fl=<subset of a w i>   ->  <id> A <hex bytes>,<hex bytes>,... P <fwd>:<bwd>,...   (sorted, no duplicates;
+   `-` = the zero-length atom; P = the code positions the atoms' automaton entries point to) -/
 import YaraModel.Model.ReAtoms
 import Driver.Re
 namespace Driver.Reatoms
@@ -22,6 +22,8 @@ def handle (line : String) : String :=
     let m : Mods := { ascii := has 'a' || !has 'w', wide := has 'w', nocase := has 'i' }
     let as := atomsOf quality m r
     let strs := as.foldl (fun acc (b, _) => insertS (if b.isEmpty then "-" else Driver.hex b) acc) []
-    id ++ " A " ++ ",".intercalate strs
+    let sh (o : Option Nat) : String := match o with | some n => toString n | none => "-"
+    let refs := (atomRefs quality r).foldl (fun acc (f, b) => insertS (sh f ++ ":" ++ sh b) acc) []
+    id ++ " A " ++ ",".intercalate strs ++ " P " ++ (if refs.isEmpty then "0:-" else ",".intercalate refs)
 
 end Driver.Reatoms
